@@ -113,17 +113,20 @@ impl VehicleType for PHEV {
         state: &mut Vec<StateVar>,
         state_model: &StateModel,
     ) -> Result<(), TraversalModelError> {
-        let (electrical_energy, _) = self.best_case_energy(distance)?;
+        // the best-case energy comes in the prediction model's unit, the battery may be declared
+        // in another one (as in consume_energy)
+        let (electrical_energy, energy_unit) = self.best_case_energy(distance)?;
+        let battery_delta = energy_unit.convert(&electrical_energy, &self.battery_energy_unit);
         state_model.add_energy(
             state,
             &PHEV::ELECTRIC_FEATURE_NAME.into(),
             &electrical_energy,
-            &self.battery_energy_unit,
+            &energy_unit,
         )?;
         vehicle_ops::update_soc_percent(
             state,
             PHEV::SOC_FEATURE_NAME,
-            &electrical_energy,
+            &battery_delta,
             &self.battery_capacity,
             state_model,
         )?;
